@@ -48,7 +48,10 @@ def _mean_update(
 ) -> tuple[torch.Tensor, torch.Tensor]:
     if isinstance(weight, float) or isinstance(weight, int):
         weighted_sum = weight * torch.sum(input)
-        weights = torch.tensor(float(weight) * torch.numel(input))
+        weights = torch.tensor(
+            float(weight) * torch.numel(input),
+            dtype=torch.float64 if input.dtype == torch.float64 else None,
+        )
         return weighted_sum, weights
     elif isinstance(weight, torch.Tensor) and input.size() == weight.size():
         return torch.sum(weight * input), torch.sum(weight)
